@@ -374,6 +374,18 @@ def pred_send(a, go):
             return [(None, f"sendRequest used {go}, the leader's connection group is b{b:x}")]
         if st == "err" and go.startswith("dial:"):
             return [(None, "sendRequest dialled although routing must fail")]
+    if kind == "lo" and cluster_wf(c):
+        tps = parse_tps(v)
+        if len(tps) >= 1 and len(tps[0][1]) >= 1:
+            st, b = leader_of(c, tps[0][0], tps[0][1][0])
+            if st == "ok" and go != "dial:b%x" % b:
+                return [(None, f"sendRequest used {go} for list-offsets, the leader's connection group is b{b:x}")]
+            if st != "ok" and go.startswith("dial:"):
+                return [(None, "sendRequest dialled for list-offsets although the layout designates no leader")]
+    if kind == "ctl" and cluster_wf(c) and c["controller"] in c["brokers"] and go != "dial:b%x" % c["controller"]:
+        return [(None, f"sendRequest used {go}, the controller's connection group is b{c['controller']:x}")]
+    if kind == "lg" and cluster_wf(c) and Z(v) in c["brokers"] and go != "dial:b%x" % Z(v):
+        return [(None, f"sendRequest used {go} for the list-groups message addressed to broker {Z(v)}")]
     if kind == "o" and go != "dial:c":
         return [(None, "a plain request did not use the control connection")]
     return []
